@@ -1574,6 +1574,15 @@ class find(object):
         return dict(results)
 
 
+def _archive_location(rel):
+    """
+    Normalizes the relative location of persisted content so that it always
+    lies beneath the directory it gets joined to: '..' segments are resolved
+    against (and never above) that directory and a leading '/' is dropped.
+    """
+    return os.path.normpath(os.path.join(os.sep, rel)).lstrip(os.sep)
+
+
 @serializer(CommandOutputProvider)
 def serialize_command_output(obj, root):
     rel = os.path.join("insights_commands", obj.relative_path)
@@ -1581,6 +1590,7 @@ def serialize_command_output(obj, root):
         rel = os.path.join("insights_commands", obj.save_as)
         if obj.save_as.endswith("/"):
             rel = os.path.join(rel, os.path.basename(obj.relative_path))
+    rel = _archive_location(rel)
     dst = os.path.join(root, rel)
     rc = obj.write(dst)
     return {
@@ -1611,6 +1621,7 @@ def serialize_text_file_provider(obj, root):
         rel = obj.save_as
         if obj.save_as.endswith("/"):
             rel = os.path.join(rel, os.path.basename(obj.relative_path))
+    rel = _archive_location(rel)
     dst = os.path.join(root, rel)
     rc = obj.write(dst)
     return {
@@ -1635,6 +1646,7 @@ def serialize_raw_file_provider(obj, root):
         rel = obj.save_as
         if obj.save_as.endswith("/"):
             rel = os.path.join(rel, os.path.basename(obj.relative_path))
+    rel = _archive_location(rel)
     dst = os.path.join(root, rel)
     rc = obj.write(dst)
     return {
@@ -1659,6 +1671,7 @@ def serialize_datasource_provider(obj, root):
         rel = obj.save_as
         if obj.save_as.endswith("/"):
             rel = os.path.join(rel, os.path.basename(obj.relative_path))
+    rel = _archive_location(rel)
     dst = os.path.join(root, rel)
     obj.write(dst)
     return {"relative_path": rel, "save_as": obj.save_as}
@@ -1677,6 +1690,7 @@ def serialize_container_file_output(obj, root):
         rel = os.path.join("insights_containers", obj.save_as)
         if obj.save_as.endswith("/"):
             rel = os.path.join(rel, os.path.basename(obj.relative_path))
+    rel = _archive_location(rel)
     dst = os.path.join(root, rel)
     rc = obj.write(dst)
     return {
@@ -1707,6 +1721,7 @@ def serialize_container_command(obj, root):
         rel = os.path.join("insights_containers", obj.save_as)
         if obj.save_as.endswith("/"):
             rel = os.path.join(rel, os.path.basename(obj.relative_path))
+    rel = _archive_location(rel)
     dst = os.path.join(root, rel)
     rc = obj.write(dst)
     return {
